@@ -618,6 +618,130 @@ pub fn extreme_textures(quick: bool) -> Vec<BuildCase> {
     out
 }
 
+// ------------------------------------------------------------------------------------------------------------
+// Codeword steering: Byte payloads of full capacity crafted so that chosen DATA CODEWORDS (hence whole data blocks)
+// take chosen values - the payload bytes sit 4 + count-width bits into the stream, so every codeword after the
+// header is two payload nibbles. Blocks that look like padding (EC 11 ... with or without one deviating byte at an
+// end), all-zero blocks, copies of the previous block and multiples of the generator polynomial (all-zero remainder)
+// are contents a per-block short cut, cache or filter would treat specially.
+
+#[derive(Clone, Copy, Debug)]
+pub enum BlockKind {
+    Random,
+    Zero,
+    /// EC 11 EC 11 ... starting with EC (phase 0) or 11 (phase 1); deviation: 0 none, 1 last byte, 2 first byte, 3 middle
+    Pad { phase: u8, deviation: u8 },
+    CopyOfPrevious,
+    /// q(x) * g(x): the Reed-Solomon remainder of the block is all zero
+    GeneratorMultiple,
+    /// one repeated byte
+    Constant(u8),
+}
+
+pub fn block_kind() -> BoxedStrategy<BlockKind> {
+    prop_oneof![
+        4 => Just(BlockKind::Random),
+        1 => Just(BlockKind::Zero),
+        4 => (0u8..2, 0u8..4).prop_map(|(phase, deviation)| BlockKind::Pad { phase, deviation }),
+        1 => Just(BlockKind::CopyOfPrevious),
+        2 => Just(BlockKind::GeneratorMultiple),
+        1 => any::<u8>().prop_map(BlockKind::Constant),
+    ]
+    .boxed()
+}
+
+/// Payload (Byte mode, full capacity of the cell) whose data blocks have the given kinds (cyclically); `noise` feeds
+/// the random parts. Codewords overlapping the header or the end of the payload keep whatever the stream gives them.
+pub fn block_payload(version: usize, level: Level, kinds: &[BlockKind], noise: &[u8]) -> Vec<u8> {
+    let lay = layout(version, level);
+    let cap = capacity(version, level, Mode::Byte);
+    let header = 4 + cci_bits(version, Mode::Byte);
+    let total_data = data_codewords(version, level);
+    let mut d = vec![0u8; total_data];
+    let mut nz = 0usize;
+    let mut next = |k: usize| -> u8 {
+        nz += 1;
+        noise[(nz * 7 + k) % noise.len().max(1)].wrapping_add((nz / 251) as u8).wrapping_mul(((k as u8) << 1) | 1)
+    };
+    let g = refmodel::gf::generator(lay.ec);
+    let mut off = 0usize;
+    for b in 0..lay.blocks {
+        let len = lay.data_len(b);
+        let kind = kinds[b % kinds.len().max(1)];
+        let block: Vec<u8> = match kind {
+            BlockKind::Random => (0..len).map(|i| next(i + b)).collect(),
+            BlockKind::Zero => vec![0; len],
+            BlockKind::Constant(x) => vec![x; len],
+            BlockKind::Pad { phase, deviation } => {
+                let mut v: Vec<u8> = (0..len).map(|i| if (i + phase as usize) % 2 == 0 { 0xEC } else { 0x11 }).collect();
+                let at = match deviation {
+                    1 => Some(len - 1),
+                    2 => Some(0),
+                    3 => Some(len / 2),
+                    _ => None,
+                };
+                if let Some(a) = at {
+                    v[a] = next(a) | 2; // never EC (0xEC has bit 1 clear... keep it different from both pad bytes)
+                    if v[a] == 0xEC || v[a] == 0x11 {
+                        v[a] = 0x5A;
+                    }
+                }
+                v
+            }
+            BlockKind::CopyOfPrevious if b > 0 => {
+                let pl = lay.data_len(b - 1);
+                (0..len).map(|i| d[off - pl + i % pl]).collect()
+            }
+            BlockKind::CopyOfPrevious => (0..len).map(|i| next(i)).collect(),
+            BlockKind::GeneratorMultiple => {
+                // q(x) of degree len - 1 - ec times g(x) (degree ec): a codeword polynomial of degree len - 1 ... the
+                // block is the DATA part only, so take data = first `len` coefficients of (m(x) * x^ec + remainder):
+                // choose the data so that its remainder is zero: data(x) * x^ec divisible by g  <=>  data(x) divisible by g
+                let mut v = vec![0u8; len];
+                if len > lay.ec {
+                    let q: Vec<u8> = (0..len - lay.ec).map(|i| next(i) | 1).collect();
+                    for (i, &qi) in q.iter().enumerate() {
+                        for (j, &gj) in g.iter().enumerate() {
+                            v[i + j] ^= refmodel::gf::mul(qi, gj);
+                        }
+                    }
+                } else {
+                    for x in v.iter_mut() {
+                        *x = 0;
+                    }
+                }
+                v
+            }
+        };
+        d[off..off + len].copy_from_slice(&block);
+        off += len;
+    }
+    // stream bits -> payload bits
+    let mut payload = vec![0u8; cap];
+    for p in 0..8 * cap {
+        let sb = header + p;
+        if sb / 8 >= total_data {
+            break;
+        }
+        if d[sb / 8] >> (7 - sb % 8) & 1 == 1 {
+            payload[p / 8] |= 1 << (7 - p % 8);
+        }
+    }
+    payload
+}
+
+/// A build whose data blocks have generated kinds: version (2..=40, weighted to the small multi-block ones), level, mask
+/// forced or automatic.
+pub fn block_lookalike_case() -> BoxedStrategy<(BuildCase, &'static str)> {
+    (prop_oneof![3 => 2usize..=12, 1 => 2usize..=40], 0usize..4, prop_oneof![Just(None), (0u8..8).prop_map(Some)], vec(block_kind(), 1..6), vec(any::<u8>(), 16..64))
+        .prop_map(|(v, li, mask, kinds, noise)| {
+            let level = Level::from_index(li);
+            let payload = block_payload(v, level, &kinds, &noise);
+            (BuildCase::new(payload, Opts { mode: Some(Mode::Byte), level: Some(level), version: Some(v), mask }), "block_lookalike")
+        })
+        .boxed()
+}
+
 /// Automatic-mask builds in small and medium versions (1..=14, weighted to the small ones): exact penalty ties
 /// between candidates are frequent only there (about 0.4% of V1 builds, 0.15% at V10, practically none above V14),
 /// and a tie is what separates "mask chosen" from "mask applied" / "mask reported" faults.
